@@ -743,6 +743,8 @@ def run(ctx):
         nfail += silent_client_cases(ctx, runner)
     finally:
         runner.close()
+    import lib_battery
+    lib_battery.report(ctx, "hostile", "battery")
     ctx.cov["rule"] = ("one connection per case on a shared worker object (sync / gthread / async wrapper; cfg variants default, "
                        "keepalive off, sendfile off, proxy_protocol, small limits, worker_connections == threads): repository fixtures, "
                        "hand corpus + pipelined bad requests, every truncation offset of 8 streams, every class of the regenerated "
@@ -799,6 +801,9 @@ def search(ctx, seeds, fixtures):
 
 
 def replay(rep):
+    if rep.get("kind") == "battery":
+        import lib_battery
+        return lib_battery.replay(rep)
     if rep.get("kind") == "silent-client":
         runner = Runner()
         try:
